@@ -85,7 +85,54 @@ def specs():
         "dictMaterialize", "(self_values : List α) (self_encoding : List Nat)", "List α",
         init_scope={"self.values": ("self_values", "List α"), "self.encoding": ("self_encoding", "List Nat")},
         expect_loops=[], doc="DictionaryColumn.materialize", frozen_self=True)))
+    out.append(("ctorResolve", ("__init__", "FlatColumn", "isinstance(self.type, OrsoTypes)"), Spec(
+        "ctorResolve", "{ET : Type} (self_element_type : Option ET) (self_precision self_scale self_length : Option Nat) "
+        "(u_element_type : Option ET) (u_precision u_scale u_length : Option Nat)",
+        "Option ET × Option Nat × Option Nat × Option Nat",
+        init_scope={"self.element_type": ("self_element_type", "Option ET"), "self.precision": ("self_precision", "Option Nat"),
+                    "self.scale": ("self_scale", "Option Nat"), "self.length": ("self_length", "Option Nat"),
+                    "_element_type": ("u_element_type", "Option ET"), "_precision": ("u_precision", "Option Nat"),
+                    "_scale": ("u_scale", "Option Nat"), "_length": ("u_length", "Option Nat")},
+        outputs=["self.element_type", "self.precision", "self.scale", "self.length"], expect_loops=[],
+        doc="FlatColumn.__init__, the block `if isinstance(self.type, OrsoTypes):` (the parameters parsed from a type name "
+            "meet the keywords)")))
     return out
+
+
+class _Block:
+    """The body of one `if <test>:` of a function, presented to the translator as a function body."""
+
+    def __init__(self, fn, test):
+        found = [n for n in ast.walk(fn) if isinstance(n, ast.If) and ast.unparse(n.test) == test]
+        if len(found) != 1 or found[0].orelse:
+            raise Untranslatable("%d blocks `if %s:` without else" % (len(found), test))
+        self.body = found[0].body
+
+
+def source_of(src, where):
+    fn = src.func(where[0], where[1])
+    return fn if len(where) == 2 else _Block(fn, where[2])
+
+
+def class_length_default(src, cls):
+    """`length: int = <n>` in the class body (the dataclass field default the shared constructor assigns when
+    the keyword is absent)."""
+    if src.tree is None:
+        raise KeyError("orso/schema.py does not parse")
+    for n in ast.walk(src.tree):
+        if isinstance(n, ast.ClassDef) and n.name == cls:
+            for st in n.body:
+                if isinstance(st, ast.AnnAssign) and isinstance(st.target, ast.Name) and st.target.id == "length":
+                    if st.value is None:
+                        raise KeyError("%s.length has no default" % cls)
+                    v = ast.literal_eval(st.value)
+                    if v is None:
+                        return None
+                    if type(v) is int and v >= 0:
+                        return v
+                    raise KeyError("%s.length default %r" % (cls, v))
+            return None  # inherited from FlatColumn: None
+    raise KeyError("class " + cls)
 
 
 # --------------------------------------------------------------------------- the dtype decision
@@ -330,17 +377,22 @@ def generate(o):
         text += "/-- the dtype SparseColumn.materialize gives its result: the decision over the dtype kinds of the stored\n"
         text += "values (`vdt`) and of the default (`ddt`), both branches, as written in the source -/\n"
         text += "def sparseResultDType (vdt ddt : NpDType) : NpDType :=\n  %s\n\n" % decision
+        for cls, nm in (("ConstantColumn", "constLengthDefault"), ("FunctionColumn", "functionLengthDefault")):
+            text += "/-- `length: int = ...` of %s: what the shared constructor assigns when the keyword is absent -/\n" % cls
+            text += "def %s : Option Nat := %s\n\n" % (nm, "some %d" % ld[cls] if isinstance(ld[cls], int) else "none")
         text += "end Gen.Encodings\n"
         return text
 
     translated = {}
-    for key, (fn, cls), spec in specs():
-        translated[key] = o.item("schema.lean." + key, (lambda fn=fn, cls=cls, spec=spec: pystmt.translate(src.func(fn, cls), spec)),
-                                 PINNED[key])
+    for key, where, spec in specs():
+        translated[key] = o.item("schema.lean." + key, (lambda where=where, spec=spec: pystmt.translate(source_of(src, where), spec)),
+                                 PINNED.get(key, ""))
+    ld = {cls: o.item("schema.length_default." + cls, (lambda cls=cls: class_length_default(src, cls)), 1)
+          for cls in ("ConstantColumn", "FunctionColumn")}
     dd = o.item("schema.lean.sparseResultDType", lambda: dtype_decision(src.func("materialize", "SparseColumn")),
                 PINNED["sparseResultDType"])
     text = assemble(translated, dd)
-    pinned_text = assemble({k: PINNED[k] for k in translated}, PINNED["sparseResultDType"])
+    pinned_text = assemble({k: PINNED.get(k, "") for k in translated}, PINNED["sparseResultDType"])
     if text != pinned_text:
         ok, why = type_checks(text)
         if not ok and type_checks(pinned_text)[0]:
